@@ -39,7 +39,13 @@ var harnessPkgs = map[string]string{
 
 // overlayFiles maps virtual repo paths to real harness files.
 func overlayFiles() map[string]string {
-	ov := map[string]string{filepath.Join(repoDir, "zzverif/vf/vf.go"): verifDir + "/harness/vf/vf.go", filepath.Join(repoDir, "zzverif/vfs/vfs.go"): verifDir + "/harness/vfs/vfs.go"}
+	ov := map[string]string{}
+	for _, d := range []string{"vf", "vfs"} { // the virtual harness-support packages
+		files, _ := filepath.Glob(verifDir + "/harness/" + d + "/*.go")
+		for _, f := range files {
+			ov[filepath.Join(repoDir, "zzverif", d, filepath.Base(f))] = f
+		}
+	}
 	for _, kv := range strings.Split(os.Getenv("VERIF_EXTRA_OVERLAY"), ",") {
 		if a, b, ok := strings.Cut(kv, "="); ok {
 			ov[a] = b
